@@ -1,1 +1,45 @@
-From TB Require Import Base.
+(** C03 - nothing outside the loaded torrents' export subtrees is ever touched.  Statements only. *)
+From TB Require Import Base Decimal BencodeModel TorrentModel TorrentProofs PathModel FsModel SolverModel FinderModel RunModel
+                       SolverProofs RunProofs FsProofs FaultProofs PreludeProofs TableProofs Generated GeneratedObligations.
+Local Open Scope N_scope.
+
+(** Every mutating operation of a piece evaluation names the export path of one of the piece's
+    non-padding entries, or that path's parent directory (C01_piece_issues_only_good_ops), and
+    every export path of the metadata table - and its parent - lies lexically inside
+    export/<40 hex digits of its torrent's info-hash>/Data. *)
+Theorem C03_targets_confined export ts id e : In e (metadata_table export ts id) ->
+  exists t, In t ts /\ e_ih e = t_info_hash t /\
+    starts_with (export ++ [hexdigest (t_info_hash t); [68;97;116;97]]) (e_target e) = true /\
+    starts_with (export ++ [hexdigest (t_info_hash t); [68;97;116;97]]) (parent (e_target e)) = true.
+Proof. exact (table_target_confined export ts id e). Qed.
+
+(** A loadable torrent only declares plain names: the name and every path component are non-empty,
+    not '.' or '..', and contain no '/', so appending them cannot leave the subtree. *)
+Theorem C03_loaded_name_plain d ih t : TorrentSpec.spec_info d ih = Some t -> is_plain (t_name t) = true.
+Proof. intros Hs. apply spec_info_fields in Hs. tauto. Qed.
+
+(** Open modes (re-extracted from the source on every run): candidates and index probes are
+    read-only; only the writer (targets) and the resize second pass (targets) open for writing,
+    never with truncate. *)
+Theorem C03_open_modes :
+  of_write candidate_open = false /\ of_write index_open = false /\ of_write resize_probe_open = false /\
+  of_create candidate_open = false /\ of_create index_open = false /\ of_create resize_probe_open = false /\ of_create resize_fix_open = false /\
+  of_truncate candidate_open = false /\ of_truncate index_open = false /\ of_truncate resize_probe_open = false /\
+  of_truncate resize_fix_open = false /\ of_truncate writer_open = false.
+Proof. repeat split; reflexivity. Qed.
+
+(** The resize pre-flight only ever issues [SetLen target declared] on non-padding entries. *)
+Theorem C03_resize_ops_on_targets ans mutok es k o : In o (fst (run_prelude ans mutok (resize_pass2 es k))) ->
+  In o (fst (run_prelude ans mutok k)) \/ exists e, In e es /\ e_pad e = false /\ o = SetLen (e_target e) (e_len e).
+Proof. exact (pass2_ops_shape ans mutok es k o). Qed.
+
+(** Inodes no operation names keep their content (frame). *)
+Theorem C03_unnamed_inodes_unchanged f o f' ok j : apply_op f o = (f', ok) ->
+  fs_lookup f (op_path o) <> Some (NFile j) -> fs_content f' j = fs_content f j.
+Proof. intros Ha Hn. destruct (apply_op_content f o f' ok j Ha) as [He|[Hl _]]; [exact He|contradiction]. Qed.
+
+Print Assumptions C03_targets_confined.
+Print Assumptions C03_loaded_name_plain.
+Print Assumptions C03_open_modes.
+Print Assumptions C03_resize_ops_on_targets.
+Print Assumptions C03_unnamed_inodes_unchanged.
